@@ -1,5 +1,6 @@
 """C05 - merging is local."""
 from ..mutate import Mutant, in_func
+from ..report import AnalysisError
 from . import mergerules as mr
 from . import unitrules
 from . import mergetrace as mt
@@ -12,9 +13,56 @@ DECIDED = [
     'R1c: each pruning predicate compares the entry it decides with the node found by one lookup of that entry\'s own path in the opposite tree (no cached / re-descended counterpart).',
     'R1: over every on_merge_impl / on_premerge_impl in the package, the absolute path threaded through the recursion is used for lookups only on the merge root; lookups inside the nodes being merged use paths relative to them (path-base typing); removed-set and new-path walk share one base.',
     'R2: the recursion passes path + [key] (not path, not [key]) and the loop key to the child merge.',
+    'R4: no build step (hook, hook wrapper, new-path check) compares the length of the absolute path with a bound other than 0.',
     'R3: every node method that hands its own (path, operand) pair on to the next layer (super(), a sub-build, the *_impl of the same step) hands it on in the same order.',
 ]
 UNDECIDED = ['sibling independence and wrapping invariance as data (a relational statement over pairs of runs).']
+
+
+HOOKS = ('on_preprocess', 'on_premerge', 'on_merge', 'on_evaluate', 'on_preprocess_impl', 'on_premerge_impl', 'on_merge_impl', 'on_evaluate_impl', '_require_all_new', 'merge', 'premerge', 'preprocess')
+
+
+def r4(repo, run):
+    """the absolute path handed through the build steps is never measured against a bound: a comparison of len(<the path>) with
+    anything but 0 makes what a node does depend on how deep the document is nested (the wrapper installed around every step
+    included: it picks the path out of its positional arguments)"""
+    import ast
+    from ..srcmodel import unparse
+    n = 0
+    bad = []
+    seen = set()
+    for fi in repo.all_functions():
+        ps = fi.params()
+        names = set()
+        if fi.name in HOOKS and fi.cls is not None and len(ps) >= 2:
+            names.add(ps[1])
+        for nd in ast.walk(fi.node):
+            # the hook wrapper: path = args[1] if len(args) > 1 else kwargs['path']
+            if isinstance(nd, ast.Assign) and len(nd.targets) == 1 and isinstance(nd.targets[0], ast.Name) and "kwargs['path']" in unparse(nd.value) and 'args[1]' in unparse(nd.value):
+                names.add(nd.targets[0].id)
+        if not names:
+            continue
+        n += 1
+        lens = {}
+        for nd in ast.walk(fi.node):
+            if isinstance(nd, ast.Assign) and len(nd.targets) == 1 and isinstance(nd.targets[0], ast.Name) and isinstance(nd.value, ast.Call) and unparse(nd.value.func) == 'len' \
+                    and len(nd.value.args) == 1 and isinstance(nd.value.args[0], ast.Name) and nd.value.args[0].id in names:
+                lens[nd.targets[0].id] = nd.value.args[0].id
+
+        def is_len(x):
+            return (isinstance(x, ast.Call) and unparse(x.func) == 'len' and len(x.args) == 1 and isinstance(x.args[0], ast.Name) and x.args[0].id in names) or (isinstance(x, ast.Name) and x.id in lens)
+        for nd in ast.walk(fi.node):
+            if isinstance(nd, ast.Compare):
+                sides = [nd.left] + list(nd.comparators)
+                if any(is_len(x) for x in sides) and not all(is_len(x) or (isinstance(x, ast.Constant) and x.value == 0) for x in sides) and id(nd) not in seen:
+                    seen.add(id(nd))
+                    bad.append((fi, nd))
+    if n < 8:
+        raise AnalysisError('C05.R4: only %d build-step functions that receive the absolute path were found' % n)
+    for fi, nd in bad:
+        run.violation('C05.R4', fi, unparse(nd)[:80], 'the length of the absolute path is compared with a bound: the same documents behave differently when wrapped under more keys (a nesting limit, a depth-dependent fast path)', node=nd)
+    if not bad:
+        run.ok('C05.R4', repo.func('ComposedNode.ayns.on_merge_impl'), 'no build step measures the absolute path against a bound (%d functions)' % n)
 
 
 def check(repo, run, tier):
@@ -25,11 +73,13 @@ def check(repo, run, tier):
     g(pr.no_unpacked_list_paths, repo, run, 'C05.R1d')
     g(mr.key_loop_paths, repo, run, 'C05.R2')
     g(unitrules.delegation_argument_order, repo, run, 'C05.R3')
+    g(r4, repo, run)
     g.done()
 
 
 def mutants(repo):
     return [
+        Mutant('nesting-limit-in-the-step-wrapper', lambda r: in_func(r, 'node.decorator_factory', "            with errors.rethrow_point(error_type, self, path, other):", "            if path is not None and len(path) > 64:\n                raise RecursionError('nested too deep')\n            with errors.rethrow_point(error_type, self, path, other):"), ['C05.R4']),
         Mutant('path-and-operand-swapped', lambda r: in_func(r, 'IncludeNode.ayns.on_preprocess_impl', "on_preprocess(path, builder)", "on_preprocess(builder, path)"), ['C05.R3']),
         Mutant('F5-reverted', lambda r: in_func(r, 'ComposedNode.ayns.on_merge_impl', "get_first_not_missing_node(path[_prefix_len:])", "get_first_not_missing_node(path)"), ['C05.R1']),
         Mutant('extend-looks-up-relative', lambda r: in_func(r, 'ExtendNode.ayns.on_premerge_impl', "node = into.ayns.get_node(path)", "node = into.ayns.get_node(path[len(path):])"), ['C05.R1']),
